@@ -11,6 +11,7 @@ import Rl.Lemmas.Keymap
 import Rl.Lemmas.KeymapVi
 import Rl.Lemmas.ExecRefines
 import Rl.Lemmas.ExecRefines2
+import Rl.Lemmas.ExecRefines3
 import Rl.Props.C07
 import Rl.Lemmas.EditorFrame
 import Rl.Lemmas.LineBuffer
@@ -701,15 +702,32 @@ theorem C01_execute_refines_replace_char (S : Segmenter) (U : UData) (cfg : EdCf
     wp (execute S U cfg (.replaceChar n c)) (Refined S U (.replaceChar n c) mode s) (fun _ _ => False) s :=
   execute_replaceChar_refines S U cfg hS hnp mode n c s hwf hg hj
 
-/-- **Summary over `Act`** (`CoveredAt`: insert, move, kill, change, yank, vi `r` where judged, the vi
-    mode switches, no-op): executing `a.toCmd` returns with status `proceed` and the line (text and
+/-- **M-u / M-l / M-c**: `edit_word` is `editWordWant` — the first alphanumeric run at or after the
+    cursor is case-mapped (capitalize: first cluster upper, rest lower), the cursor ends after the
+    replacement; without a word nothing changes.  Stable segmenter; no further side condition. -/
+theorem C01_execute_refines_case (S : Segmenter) (U : UData) (cfg : EdCfg) (hS : S.Stable)
+    (hnp : cfg.hinterPanicAt = none) (mode : Mode) (a : WordAction) (s : Ed) (hwf : WF s.line) :
+    wp (execute S U cfg (wordCmd a)) (Refined S U (.editWord a) mode s) (fun _ _ => False) s :=
+  execute_case_refines S U cfg hS hnp mode a s hwf
+
+/-- **C-t** in the situations of `JudgedTranspose` (nothing to transpose; or the cursor strictly
+    inside the text between clusters `g1 | g2`, and `g1` still a cluster when the text after `g2`
+    follows it directly): the clusters are exchanged, the cursor ends after the pair. -/
+theorem C01_execute_refines_transpose (S : Segmenter) (U : UData) (cfg : EdCfg)
+    (hnp : cfg.hinterPanicAt = none) (mode : Mode) (s : Ed) (hwf : WF s.line) (hg : s.line.canGrow = true)
+    (hj : JudgedTranspose S s.line.buf s.line.pos) :
+    wp (execute S U cfg .transposeChars) (Refined S U .transposeChars mode s) (fun _ _ => False) s :=
+  execute_transpose_refines S U cfg hnp mode s hwf hg hj
+
+/-- **Summary over `Act`** (`CoveredFull`: insert, move, kill, change, yank, case changes, C-t and vi `r`
+    where judged, the vi mode switches, no-op): executing `a.toCmd` returns with status `proceed` and the line (text and
     cursor, unconditionally) `Act.apply` documents. -/
 theorem C01_execute_refines (S : Segmenter) (U : UData) (cfg : EdCfg) (hS : S.Stable) (hnl : S.NlAlone)
     (hnp : cfg.hinterPanicAt = none) (mode : Mode) (a : Act) (c : Cmd) (hc : a.toCmd = some c)
-    (s : Ed) (hcov : CoveredAt S a s.line.buf s.line.pos) (hwf : WF s.line) (hg : s.line.canGrow = true)
+    (s : Ed) (hcov : CoveredFull S a s.line.buf s.line.pos) (hwf : WF s.line) (hg : s.line.canGrow = true)
     (hr : RingOK s.ring) :
     wp (execute S U cfg c) (RefinedAct S U a mode s) (fun _ _ => False) s :=
-  execute_refines_all S U cfg hS hnl hnp mode a c hc s hcov hwf hg hr
+  execute_refines_full S U cfg hS hnl hnp mode a c hc s hcov hwf hg hr
 
 /-! ### C01_key_to_effect — from the decoded key to the effect on (text, cursor) -/
 
@@ -720,7 +738,7 @@ theorem C01_key_to_effect_emacs (S : Segmenter) (U : UData) (cfg : EdCfg) (hvi :
     (fuel : Nat) (s : Ed) (hwf : WF s.line) (hg : s.line.canGrow = true) (hrg : RingOK s.ring)
     (e : KeyEvent × DocAction) (he : e ∈ table .emacs) (a : Act) (c : Cmd)
     (ha : a = e.2.resolve (countOf s.inp.numArgs).1 (countOf s.inp.numArgs).2 s.line.buf.isEmpty false)
-    (hc : a.toCmd = some c) (hcov : CoveredAt S a s.line.buf s.line.pos)
+    (hc : a.toCmd = some c) (hcov : CoveredFull S a s.line.buf s.line.pos)
     (hr : ¬ (e.1 = key .right ∧ s.hint.isSome = true ∧ s.line.pos = blen s.line.buf)) :
     wp (do let cmd ← emacs S U cfg fuel e.1; execute S U cfg cmd) (RefinedAct S U a .emacs s) (fun _ _ => False) s := by
   subst ha
@@ -730,7 +748,7 @@ theorem C01_key_to_effect_emacs (S : Segmenter) (U : UData) (cfg : EdCfg) (hvi :
     · exact C01_binding_table_emacs S U cfg hvi hb fuel s e he c hc hr
     · exact C01_binding_table_emacs_common S U cfg hvi hb fuel s e he c hc hr
   have hk := (Ed.core_eq ((keeps_emacs S U cfg fuel e.1).ok h1)).2.2.2.1
-  exact key_to_effect_all S U cfg hS hnl hnp .emacs _ c hc s s1 hcov hwf hg hrg h1 h2 hk
+  exact key_to_effect_full S U cfg hS hnl hnp .emacs _ c hc s s1 hcov hwf hg hrg h1 h2 hk
 
 /-- vi command mode -/
 theorem C01_key_to_effect_vi_command (S : Segmenter) (U : UData) (cfg : EdCfg)
@@ -738,12 +756,12 @@ theorem C01_key_to_effect_vi_command (S : Segmenter) (U : UData) (cfg : EdCfg)
     (fuel : Nat) (s : Ed) (h0 : 0 ≤ s.inp.numArgs) (hwf : WF s.line) (hg : s.line.canGrow = true) (hrg : RingOK s.ring)
     (e : KeyEvent × DocAction) (he : e ∈ table .viCommand) (a : Act) (c : Cmd)
     (ha : a = e.2.resolve (countOf s.inp.numArgs).1 true s.line.buf.isEmpty true)
-    (hc : a.toCmd = some c) (hcov : CoveredAt S a s.line.buf s.line.pos) :
+    (hc : a.toCmd = some c) (hcov : CoveredFull S a s.line.buf s.line.pos) :
     wp (do let cmd ← viCommand S U cfg fuel e.1; execute S U cfg cmd) (RefinedAct S U a .viCommand s) (fun _ _ => False) s := by
   subst ha
   obtain ⟨s1, h1, h2⟩ := C01_binding_table_vi_command S U cfg hb fuel s h0 e he c hc
   have hk := (Ed.coreNC_eq ((keeps_viCommand S U cfg fuel e.1).ok h1)).2.2.1
-  exact key_to_effect_all S U cfg hS hnl hnp .viCommand _ c hc s s1 hcov hwf hg hrg h1 h2 hk
+  exact key_to_effect_full S U cfg hS hnl hnp .viCommand _ c hc s s1 hcov hwf hg hrg h1 h2 hk
 
 /-- vi insert mode -/
 theorem C01_key_to_effect_vi_insert (S : Segmenter) (U : UData) (cfg : EdCfg)
@@ -751,13 +769,13 @@ theorem C01_key_to_effect_vi_insert (S : Segmenter) (U : UData) (cfg : EdCfg)
     (fuel : Nat) (s : Ed) (hwf : WF s.line) (hg : s.line.canGrow = true) (hrg : RingOK s.ring)
     (e : KeyEvent × DocAction) (he : e ∈ table .viInsert) (a : Act) (c : Cmd)
     (ha : a = e.2.resolve 1 true s.line.buf.isEmpty true)
-    (hc : a.toCmd = some c) (hcov : CoveredAt S a s.line.buf s.line.pos)
+    (hc : a.toCmd = some c) (hcov : CoveredFull S a s.line.buf s.line.pos)
     (hr : ¬ (e.1 = key .right ∧ s.hint.isSome = true ∧ s.line.pos = blen s.line.buf)) :
     wp (do let cmd ← viInsert S U cfg fuel e.1; execute S U cfg cmd) (RefinedAct S U a .viInsert s) (fun _ _ => False) s := by
   subst ha
   obtain ⟨s1, h1, h2⟩ := C01_binding_table_vi_insert S U cfg hb fuel s e he c hc hr
   have hk := (Ed.coreNC_eq ((keeps_viInsert S U cfg fuel e.1).ok h1)).2.2.1
-  exact key_to_effect_all S U cfg hS hnl hnp .viInsert _ c hc s s1 hcov hwf hg hrg h1 h2 hk
+  exact key_to_effect_full S U cfg hS hnl hnp .viInsert _ c hc s s1 hcov hwf hg hrg h1 h2 hk
 
 /-! ### C01_history_keys — the history keys denote the commands whose effect C07 proves -/
 
